@@ -1,8 +1,9 @@
 (* GENERATED on every run by translate/mainloop2coq.py from src/main.cpp (main, from
    "Starting the simulation." to return). Do not edit.
-   skipped (no effect on the modelled state): updatetime = 2; h5save = opts.getSavePhaseSpace(); outstepnr = 0; simulationstep = 0; delete wake_field; delete wm; delete fpm *)
+   skipped (no effect on the modelled state): updatetime = 2; h5save = opts.getSavePhaseSpace(); outstepnr = 0; simulationstep = 0
+   local constants replaced by their (pure) initialisers: none *)
 From Coq Require Import List ZArith String.
-From Inovesa Require Import Model.Driver.
+From Inovesa Require Import Model.Driver Model.Setup.
 Import ListNotations.
 Local Open Scope Z_scope.
 Definition main_pre : blk :=
@@ -156,6 +157,9 @@ Definition main_post : blk :=
   (Seq (Point 52)
   (Seq (Print MStatus)
   (Seq (Point 53)
+  (Seq (Free OWakeField)
+  (Seq (Free OWm)
+  (Seq (Free OFpm)
   (Seq (Point 54)
   (Cond GAbort
     (Seq (Print MAborted)
@@ -164,8 +168,142 @@ Definition main_post : blk :=
     (Done))
   (Seq (Point 55)
   (Seq Exit
-  (Done))))))))).
+  (Done)))))))))))).
 Definition main_prog : prog := mkprog main_pre main_body main_post.
+(* the set-up, from the statement after the installation of the SIGINT handler to "Starting the simulation.":
+   control skeleton (Model/Setup.v); hook point i of setup_point_names is `Point (-(i+1))`; SOpq n / COpq n: n = source
+   line of the (first) statement *)
+Definition main_setup : sblk :=
+  SCall (Point (-1))
+  (SOpq 94
+  (STry
+    (SIf (COpq 96)
+      (SReturn 0)
+      (SDone)
+    (SDone))
+    (SOpq 100
+    (SReturn 1))
+  (SCall (Point (-2))
+  (SOpq 109
+  (SIf (COpq 112)
+    (SOpq 120
+    (SReturn 0))
+    (SDone)
+  (SCall (Point (-3))
+  (SOpq 131
+  (SCall (Point (-4))
+  (SOpq 148
+  (SCall (Point (-5))
+  (SOpq 169
+  (SCall (Point (-6))
+  (SOpq 256
+  (SCall (Point (-7))
+  (SOpq 368
+  (SCall (Point (-8))
+  (SOpq 471
+  (SIf (COpq 481)
+    (SOpq 490
+    (SDone))
+    (SOpq 499
+    (SIf (COpq 515)
+      (SOpq 517
+      (SIf (COpq 522)
+        (SOpq 523
+        (SReturn 0))
+        (SDone)
+      (SIf (COpq 526)
+        (SOpq 527
+        (SReturn 0))
+        (SDone)
+      (SDone))))
+      (SIf (COpq 533)
+        (SOpq 534
+        (SDone))
+        (SOpq 539
+        (SReturn 0))
+      (SDone))
+    (SDone)))
+  (SCall (Point (-9))
+  (SIf (CGuard GRenorm0)
+    (SCall UpdateXProj
+    (SCall Normalize
+    (SDone)))
+    (SDone)
+  (SCall (Point (-10))
+  (SOpq 553
+  (SCall (Point (-11))
+  (SOpq 558
+  (SCall (Point (-12))
+  (SOpq 615
+  (SCall (Point (-13))
+  (SOpq 674
+  (SCall (Point (-14))
+  (SOpq 700
+  (SCall (Point (-15))
+  (SOpq 706
+  (SIf (COpq 710)
+    (SOpq 712
+    (SIf (COpq 713)
+      (SOpq 715
+      (SReturn 0))
+      (SDone)
+    (SOpq 720
+    (SDone))))
+    (SOpq 738
+    (SDone))
+  (SCall (Point (-16))
+  (SOpq 750
+  (SCall (Point (-17))
+  (SOpq 758
+  (SCall (Point (-18))
+  (SOpq 767
+  (SCall (Point (-19))
+  (SOpq 777
+  (SCall (Point (-20))
+  (SOpq 807
+  (SCall (Point (-21))
+  (SCall (Point (-22))
+  (SOpq 884
+  (SIf (COpq 885)
+    (SOpq 887
+    (SCall (Point (-23))
+    (STry
+      (SOpq 891
+      (SCall (Point (-24))
+      (SOpq 894
+      (SCall (Point (-25))
+      (SOpq 897
+      (SCall (Point (-26))
+      (SDone)))))))
+      (SOpq 906
+      (SSetAbort
+      (SDone)))
+    (SDone))))
+    (SIf (COpq 919)
+      (SOpq 920
+      (SDone))
+      (SOpq 922
+      (SReturn 0))
+    (SDone))
+  (SCall (Point (-27))
+  (SOpq 928
+  (SDone)))))))))))))))))))))))))))))))))))))))))))))))))).
+(* opaque conditions of the set-up: (n, text) *)
+Definition setup_conds : list (Z * string) :=
+  [(96, "!opts.parse(argc, argv)"%string);
+   (112, "ofname.empty() && !opts.getForceRun()"%string);
+   (481, "startdistfile.empty()"%string);
+   (515, "isOfFileType('.h5', startdistfile) || isOfFileType('.hdf5', startdistfile)"%string);
+   (522, "grid_t1 == nullptr"%string);
+   (526, "nx != ps_bins"%string);
+   (533, "isOfFileType('.txt', startdistfile)"%string);
+   (710, "e1 > 0"%string);
+   (713, "derivationtype == cubic && !(zerobin >= 1 && zerobin <= ps_bins - 2)"%string);
+   (885, "isOfFileType('.h5', ofname) || isOfFileType('.hdf5', ofname)"%string);
+   (919, "ofname.empty()"%string)].
+(* opaque statements of the set-up: (n, number of consecutive statements merged into it) *)
+Definition setup_opaque : list (Z * Z) :=
+  [(94, 1); (100, 1); (109, 1); (120, 1); (131, 2); (148, 1); (169, 38); (256, 39); (368, 5); (471, 1); (490, 3); (499, 1); (517, 1); (523, 1); (527, 1); (534, 1); (539, 1); (553, 2); (558, 3); (615, 3); (674, 9); (700, 1); (706, 2); (712, 1); (715, 1); (720, 9); (738, 2); (750, 2); (758, 2); (767, 1); (777, 4); (807, 2); (884, 1); (887, 2); (891, 1); (894, 2); (897, 2); (906, 1); (920, 1); (922, 1); (928, 1)].
 (* VERIF_POINT labels of the translated part, index = argument of Point *)
 Definition point_names : list (Z * string) :=
   [(0, "sim:start"%string);
@@ -229,7 +367,10 @@ Definition setup_point_names : list string :=
   ["setup:handler_installed"%string; "setup:options_parsed"%string; "setup:nothing_to_do_passed"%string; "setup:display_made"%string; "setup:device_chosen"%string; "setup:machine_parameters"%string; "setup:scaling_done"%string; "setup:parameters_reported"%string; "setup:grid_made"%string; "setup:initial_renormalisation"%string; "setup:grids_copied"%string; "setup:before_rf"%string; "setup:rf_made"%string; "setup:before_drift"%string; "setup:drift_made"%string; "setup:fp_made"%string; "setup:wake_impedance"%string; "setup:rdtn_impedance"%string; "setup:rdtn_field"%string; "setup:wake_made"%string; "setup:tracking_loaded"%string; "setup:before_file"%string; "setup:config_saved"%string; "setup:file_created"%string; "setup:options_in_file"%string; "setup:file_parameters"%string; "setup:outputs_ready"%string].
 (* every reference to Display::abort in main(): (source line, is a write, lies in the translated part) *)
 Definition abort_refs : list (Z * bool * bool) :=
-  [(891, true, false); (986, false, true); (1202, false, true)].
+  [(908, true, false); (1003, false, true); (1219, false, true)].
+(* every write of Display::abort outside main.cpp (each one is `abort = true`; anything else fails the translation) *)
+Definition abort_writes_elsewhere : list (string * Z) :=
+  [("inc/IO/Display.hpp"%string, 115); ("src/IO/Display.cpp"%string, 134)].
 (* every textual use of random_device / system_clock under src/ and inc/ *)
 Definition nondet_sources : list (string * Z * string) :=
   [("inc/IO/Display.hpp"%string, 85, "system_clock"%string);
